@@ -153,7 +153,7 @@ def run(ctx):
                 nontrivial.add(json.dumps([case['kinds'], case['sched'], case['mode']]))
     # ---------------- threads
     tcases = []
-    nth = 24 if ctx.quick else 300
+    nth = 24 if ctx.quick else 1200
     for i in range(nth):
         r = ctx.rng.fork('th%d' % i)
         k = r.below(7) + 2
